@@ -9,6 +9,7 @@ let () =
   let model, judge = match prop with
     | "c20" -> C20.model_line, Some C20.judge_line
     | "optstr" -> C20.optstr_line, None
+    | "c12" -> C12.model_line, Some C12.judge_line
     | _ -> failwith ("unknown property " ^ prop) in
   let out = Buffer.create 65536 in
   List.iteri (fun i c ->
